@@ -431,6 +431,7 @@ class OutCtx:
             self.vec_name[k] = n
         for k, n in (extra_scal or {}).items():
             self.scal_name[k] = n
+        self.den_args = []           # coq text of every base raised to a negative power
         self.norm_args = []          # (coq text of the argument, the SymPy argument)
         self.abs_args = []           # (coq text of the argument, the SymPy argument) of every Abs
 
@@ -522,7 +523,9 @@ def coq_of_sympy(e, c: OutCtx, want: str) -> str:
         if isinstance(x, sympy.Integer) and int(x) >= 0 and int(x) <= 8:
             return _pow_text(coq_of_sympy(b, c, "s"), int(x))
         if isinstance(x, sympy.Integer) and -8 <= int(x) < 0:
-            return f"(/ {_pow_text(coq_of_sympy(b, c, 's'), -int(x))})"
+            bt = coq_of_sympy(b, c, "s")
+            c.den_args.append(bt)
+            return f"(/ {_pow_text(bt, -int(x))})"
         if x == sympy.Rational(1, 2):
             return f"(sqrt {coq_of_sympy(b, c, 's')})"
         raise Unsupported(f"power {e}")
@@ -719,7 +722,7 @@ def comps_of_recipe(r):
 def _quiet(c: OutCtx) -> OutCtx:
     import copy  # pylint: disable=import-outside-toplevel
     q = copy.copy(c)
-    q.norm_args, q.abs_args = [], []
+    q.norm_args, q.abs_args, q.den_args = [], [], []
     return q
 
 
